@@ -220,12 +220,24 @@ def handle (j : Json) : R Json := do
     let r : RunIn := ⟨c, results, strFD j "results_input" "seq.gbk"⟩
     let p := r.toPipe
     if boolFD j "outer" false then
-      let o := runAntismash r
-      return jObj [("model", prepOutToJson o), ("name", Json.str p.prep.name), ("json", Json.str p.jsonName),
+      let oj := fldD j "opts" (jObj [])
+      let opts : RunOpts := ⟨boolFD oj "list_plugins" false, boolFD oj "check_prereqs_only" false,
+        boolFD oj "prereqs_ok" true, boolFD oj "profile" false, boolFD oj "options_valid" true,
+        boolFD oj "any_module" true, boolFD oj "debug" false, boolFD oj "verbose" false⟩
+      let x := runFull opts r
+      let codeJ : Option Nat → Json := fun c => match c with | none => Json.null | some n => toJson n
+      let runOutOfJson : Json → R RunOut := fun i => do
+        let code ← match fldD i "code" Json.null with
+          | .null => pure none
+          | c => do pure (some (← asNat c))
+        return ⟨← prepOutOfJson i, code⟩
+      return jObj [("model", (prepOutToJson x.out).setObjVal! "code" (codeJ x.code)),
+        ("name", Json.str p.prep.name), ("json", Json.str p.jsonName),
         ("place", Json.str (reprStr (logPlace p.prep))),
         ("spec", jObj [("accepts", toJson (specAccepts (afterLogging p.prep))), ("fault", toJson p.results.hasFault),
-                       ("model_ok", toJson (specRun r o)),
-                       ("impl_ok", toJson (onImpl j prepOutOfJson (specRun r)))]),
+                       ("early", toJson (stopsEarly opts)),
+                       ("model_ok", toJson (specFull opts r x)),
+                       ("impl_ok", toJson (onImpl j runOutOfJson (specFull opts r)))]),
         ("scope", toJson (inScope c && (afterLogging p.prep).WF))]
     let o := runTail r
     return jObj [("model", prepOutToJson o), ("name", Json.str p.prep.name), ("json", Json.str p.jsonName),
